@@ -2,5 +2,5 @@
    (positive / N / Z are extracted only because the shared ocaml/conv.ml glue mentions them.) *)
 Require Import ExtrOcamlBasic.
 Require Import BinNums.
-Require Import XV.MemDefs.
-Extraction "extracted/mem_model.ml" BinNums.positive BinNums.N BinNums.Z vec_case list_case arena_case.
+Require Import XV.MemDefs XV.MemMapDefs.
+Extraction "extracted/mem_model.ml" BinNums.positive BinNums.N BinNums.Z vec_case list_case arena_case map_case.
